@@ -60,6 +60,7 @@ type scriptDriver struct {
 	nSend     int
 	sendErr   error
 	sendDur   time.Duration // how long the failing SendProbe stays in flight before it returns its error
+	okSendDur time.Duration // how long every successful SendProbe stays in flight AFTER the probe has left
 }
 
 var errSendBudget = fmt.Errorf("harness: more than 2000 probes in one run")
@@ -104,6 +105,9 @@ func (d *scriptDriver) SendProbe(ttl uint8) error {
 	select {
 	case d.notify <- struct{}{}:
 	default:
+	}
+	if d.okSendDur > 0 {
+		time.Sleep(d.okSendDur)
 	}
 	return nil
 }
@@ -178,6 +182,11 @@ type engCase struct {
 	timeout, poll, delay time.Duration
 	script               []scriptEntry
 	cancelAt             time.Duration // 0: the caller's context is never cancelled
+	// parallel engine only: the run is made with SendDelay 0 and a SendProbe that returns [delay] after the probe left, and
+	// with TracerouteTimeout = timeout + delay*count.  By the engine's code that is the schedule and the deadline of the
+	// reported configuration (send delay [delay], timeout [timeout]): the sender checks for cancellation at the same
+	// instants, MaxTimeout is the same.  The correspondence check confirms it on every such case.
+	inflight bool
 }
 
 func (c engCase) input() sx {
@@ -210,6 +219,11 @@ func runEngCase(t *testing.T, c engCase) engObs {
 		}()
 		d := newScriptDriver(!c.serial, c.script)
 		tp := common.TracerouteParams{MinTTL: uint8(c.first), MaxTTL: uint8(c.last), TracerouteTimeout: c.timeout, PollFrequency: c.poll, SendDelay: c.delay}
+		if c.inflight && !c.serial {
+			d.okSendDur = c.delay
+			tp.SendDelay = 0
+			tp.TracerouteTimeout = c.timeout + c.delay*time.Duration(c.last-c.first+1)
+		}
 		t0 := time.Now()
 		var res []*common.ProbeResponse
 		var err error
@@ -286,6 +300,16 @@ func genEngCase(r *rng, idx int) engCase {
 	c.poll = time.Duration(20+20*r.intn(5)) * msNs
 	c.timeout = time.Duration(100+50*r.intn(12))*msNs + 500
 	c.delay = time.Duration(r.intn(7)*10) * msNs
+	wantInflight := !c.serial && c.delay > 0 && r.intn(3) == 0
+	if wantInflight {
+		// the receiver's first poll then starts when the first SendProbe returns, [delay] after the start: with the delay a
+		// multiple of the poll interval the poll boundaries are those of the reported configuration (the elapsed time of a
+		// run that ends by its deadline depends on them)
+		c.delay = c.poll
+		if c.poll <= 40*msNs && r.bool() {
+			c.delay = 2 * c.poll
+		}
+	}
 	n := c.last - c.first + 1
 	destAt := 0
 	if r.intn(4) != 0 {
@@ -366,6 +390,14 @@ func genEngCase(r *rng, idx int) engCase {
 	for i := len(c.script) - 1; i > 0; i-- {
 		j := r.intn(i + 1)
 		c.script[i], c.script[j] = c.script[j], c.script[i]
+	}
+	// the receiver starts when the first SendProbe has returned: only when nothing is readable before that instant is the
+	// run the same as that of the reported configuration
+	c.inflight = wantInflight
+	for _, e := range c.script {
+		if (e.ttl == c.first || e.kind == 2) && e.delay <= c.delay {
+			c.inflight = false
+		}
 	}
 	return c
 }
@@ -467,6 +499,9 @@ func labEng(e labEnv) {
 			tags["serial"]++
 		} else {
 			tags["parallel"]++
+			if c.inflight {
+				tags["parallel_send_in_flight_zero_delay"]++
+			}
 		}
 		tags[fmt.Sprintf("status%d", obs[i].status)]++
 		if c.cancelAt > 0 {
